@@ -12,6 +12,7 @@ import sys
 import xml.etree.ElementTree as ET
 
 src, prop, name = sys.argv[1:4]
+src = os.path.abspath(src)
 extra = sys.argv[4] if len(sys.argv) > 4 else ""
 WT = f"/tmp/wt_confirm_{name}"
 PY = "/venv/bin/python"
